@@ -23,7 +23,9 @@ type undoItem struct {
 func (h *Sources) Save() {
 	defer h.Reset()
 
-	if h.skip {
+	// Once the line is accepted it has been written to the history,
+	// and the position no longer designates the same history line.
+	if h.skip || h.accepted {
 		return
 	}
 
